@@ -21,14 +21,17 @@ def build(sb):
              Node("inner/ld", "l", target="d"), Node("inner/lf", "l", target="file"), Node("inner/dang", "l", target="nope"),
              Node("inner/sp ace", "d"), Node("inner/sp ace/s", "f"), Node("inner/é", "d"), Node("inner/é/ü", "f"), Node("inner/-", "d"),
              Node("inner/-/dash", "f"), Node("inner/!", "d"), Node("inner/!/bang", "f"), Node("inner/(", "d"), Node("inner/(/paren", "f"),
-             Node("inner/,", "f")]
+             Node("inner/,", "f"), Node("inner/ ", "d"), Node("inner/ /sp", "f"), Node("inner/\n", "d"), Node("inner/\n/nl", "f"), Node("inner/\t ", "d"),
+             Node("inner/(old)", "d"), Node("inner/(old)/o", "f"), Node("inner/!imp", "d"), Node("inner/!imp/i", "f"), Node("inner/((", "f"),
+             Node("inner/,x", "d"), Node("inner/,x/c", "f"), Node("inner/)", "d"), Node("inner/)/cl", "f"), Node("inner/+p", "f")]
     treegen.build(sb, nodes)
 
 
 # spellings usable as operands (cwd = sb/inner)
 DIR_SPELLINGS = ["d", "./d", "d/", "d//", "d/.", "x/../d", "ABS/inner/d", "ABS/inner/d/", ".//d", "d/e", "d/e/", "./d/./e", "../a", "../a/", "../a/sub",
-                 "../a/sub/../sub", "../b", ".", "./", "..", "../", "x", "ld", "ld/", "sp ace", "é", "./é/", "-"]
-FILE_SPELLINGS = ["file", "./file", "lf", "dang", "d/f", "../a/f1", "ABS/inner/file", ",", "x/y"]
+                 "../a/sub/../sub", "../b", ".", "./", "..", "../", "x", "ld", "ld/", "sp ace", "é", "./é/", "-",
+                 " ", "\n", "\t ", " /", "(old)", "!imp", "(old)/", ",x", ")", "./(old)"]
+FILE_SPELLINGS = ["file", "./file", "lf", "dang", "d/f", "../a/f1", "ABS/inner/file", ",", "x/y", "((", "+p", " /sp", "\n/nl"]
 MISSING = ["missing", "./nope/x", "d/missing", "file/x", "../zz"]
 ONLY_FILES0 = ["-x", "-print", "a\nb", "-x/", "!", "(", "-x/in", "a\nb/c"]
 
@@ -180,8 +183,8 @@ def worker(job):
 
 
 def run(ctx):
-    ctx.rule = ("lists of 0-5 starting points drawn from 28 spellings of directories (d ./d d/ d// d/. x/../d absolute .//d ../a . ./ .. links, "
-                "names with blanks / multi-byte / a lone '-'), 9 of non-directories (files, links, dangling), 5 missing ones, duplicates and nested "
+    ctx.rule = ("lists of 0-5 starting points drawn from 38 spellings of directories (d ./d d/ d// d/. x/../d absolute .//d ../a . ./ .. links, "
+                "names with blanks / multi-byte / a lone '-' / whitespace-only and newline-only names / names starting with '(' '!' ',' ')'), 9 of non-directories (files, links, dangling), 5 missing ones, duplicates and nested "
                 "ones; given as operands, as no operand at all, and as NUL-separated lists from a file and from stdin (with/without final NUL, "
                 "with empty names, with names starting with '-' or containing a newline); half of the runs -sorted (exact sequence), the rest "
                 "per-starting-point segments as multisets; distinct = (shape, names, sorted)")
